@@ -26,7 +26,8 @@ TECHNIQUE = ("runtime monitoring: post-condition on every subtree/cut call again
 LEVEL_TEXT = ("Exploration with exhaustive pockets: every (tree, node) pair and, for trees up to 9 "
               "nodes, every removal subset of the generated trees is executed through the real "
               "functions and compared with the reference model; larger trees and the rule-based "
-              "cuts are sampled (thresholds on / just below / just above actual branch lengths).")
+              "cuts are sampled (thresholds on / just below / just above actual branch lengths)."
+              "Cut transform instances are first applied to a decoy tree (no state may carry over).")
 LEVEL_NOTE = ("Encodes my reading of the documented cut rules (DESIGN.md C06); near-threshold "
               "tip-branch lengths (within float32 rounding of the threshold) are classified "
               "inconclusive, exact ties are decided on integer-length geometry.")
